@@ -246,6 +246,9 @@ func (s *Sched) pick(from *T) *T {
 
 // switchFrom: t gives up the processor (t.St already set).
 func (s *Sched) switchFrom(t *T) {
+	if t == nil {
+		return // set-up code running before Run(): single-threaded, nothing to schedule
+	}
 	isDone := t.St == Done
 	n := s.pick(t)
 	if n == t {
